@@ -2,14 +2,17 @@ from store_common import *
 
 META = {
     "category": "proof",
-    "text": 'Per-file fact stores as state machines (coq/theories/Base/StoreSM.v: add / remove / clear / obs / mentions / size, with the driver update = remove;add, remove, reindex on top). For LuaModuleIndex (full refinement proof, shared with C33) Coq proves for EVERY driver history: re-submitting a file with unchanged facts changes no answer (resubmit_obs, outside the class "another file is registered under the same module path", whose violation is proved as resubmit_obs_shared_refuted), never changes a container count (resubmit_size: no growth), and edit-then-restore equals never touching the file (edit_restore). For LuaPropertyIndex the transcription proves the known defect (property_resubmit_refuted: re-submitting a file erases what another file contributed to a shared owner) and that every owner the file does not touch keeps its property in every reachable state (property_resubmit_outside_known). LuaPropertyIndex, LuaGlobalIndex, DiagnosticIndex and LuaTypeIndex (per-file part) models are tied by exact correspondence (queries + H2 container counts after every op); the whole analysis is searched end-to-end: multi-file workspaces, histories of re-submissions, batches and edit/restore pairs, full observable dump and H2 sizes compared with the state before.',
-    "note": 'Modelled and proved: LuaModuleIndex. Modelled, tied, partially proved: LuaPropertyIndex (frame theorem + refutation), LuaGlobalIndex, DiagnosticIndex (C09/C10 theorems). Not modelled (table obligations + end-to-end search only): LuaTypeIndex, LuaMemberIndex, LuaReferenceIndex, decl, signature, operator, flow, dependency, metatable, json-schema. Facts written for a file are an input of the model. Known open findings, each with its own signature computed from WHICH part of the dump differs: hover doc/deprecation of a type declared in several files (LuaPropertyIndex, one property per owner); order of the declarations of one global / of one field / of the super clauses of one class / of the files under one module path (submission order); a library file sees main-workspace symbols only when re-submitted (attributed by a causal re-run); JsonSchemaIndex is never cleaned. A change of the member set, of member or inferred types, of diagnostics or of type declarations is in none of them and is a VIOLATION. Axioms: none.',
+    "text": 'Per-file fact stores as state machines (coq/theories/Base/StoreSM.v: add / remove / clear / obs / mentions / size, with the driver update = remove;add, remove, reindex on top). For LuaModuleIndex (full refinement proof, shared with C33) Coq proves for EVERY driver history: re-submitting a file with unchanged facts changes no answer (resubmit_obs, outside the class "another file is registered under the same module path", whose violation is proved as resubmit_obs_shared_refuted), never changes a container count (resubmit_size: no growth), and edit-then-restore equals never touching the file (edit_restore). LuaGlobalIndex and DiagnosticIndex (file-level code sets) have full StoreSM refinements as well (global_resubmit_obs with its refutation global_resubmit_shared_refuted for a global declared in several files), and the PRODUCT store LuaModuleIndex x LuaGlobalIndex x DiagnosticIndex — the modelled part of DbIndex under update_file_by_uri / remove_file_by_uri / reindex — inherits every theorem (product_resubmit_size, product_resubmit_obs). LuaMemberIndex (One/Many items) is transcribed, tied by correspondence, and its removal rule is proved item by item (member_prune_item_exact: exactly the declarations of the other files survive). For LuaPropertyIndex the transcription proves the known defect (property_resubmit_refuted: re-submitting a file erases what another file contributed to a shared owner) and that every owner the file does not touch keeps its property in every reachable state (property_resubmit_outside_known). LuaPropertyIndex, LuaGlobalIndex, DiagnosticIndex and LuaTypeIndex (per-file part) models are tied by exact correspondence (queries + H2 container counts after every op); the whole analysis is searched end-to-end: multi-file workspaces, histories of re-submissions, batches and edit/restore pairs, full observable dump and H2 sizes compared with the state before.',
+    "note": 'Full StoreSM refinement, all theorems, all histories: LuaModuleIndex, LuaGlobalIndex, DiagnosticIndex (file-level code sets) and their product. Transcribed, tied by exact correspondence, partially proved: LuaPropertyIndex (frame theorem + refutation), LuaMemberIndex (declaration members: item-level removal theorem), LuaTypeIndex per-file part (C10 theorems). LuaReferenceIndex (global_references / index_reference) transcribed and tied (C10 theorems). Not modelled (table obligations + end-to-end search only): the per-file maps of LuaReferenceIndex, decl, signature, operator, flow, dependency, metatable, json-schema. Facts written for a file are an input of the model. Known open findings, each with its own signature computed from WHICH part of the dump differs: hover doc/deprecation of a type declared in several files (LuaPropertyIndex, one property per owner); order of the declarations of one global / of one field / of the super clauses of one class / of the files under one module path (submission order); a library file sees main-workspace symbols only when re-submitted (attributed by a causal re-run); JsonSchemaIndex is never cleaned. A change of the member set, of member or inferred types, of diagnostics or of type declarations is in none of them and is a VIOLATION. Axioms: none.',
     "technique": "Coq refinement proof (generic store state machine + invariant over all histories) about hand-written Gallina transcriptions + exact model-vs-implementation correspondence + end-to-end metamorphic search",
 }
 
 THEOREMS = [("resubmit_obs", "theorem"), ("resubmit_size", "theorem"), ("edit_restore", "theorem"),
             ("resubmit_obs_shared_refuted", "refutation"), ("property_resubmit_refuted", "refutation"),
-            ("property_resubmit_outside_known", "theorem"), ("resubmit_example", "example")]
+            ("property_resubmit_outside_known", "theorem"), ("global_resubmit_obs", "theorem"),
+            ("global_resubmit_shared_refuted", "refutation"), ("product_resubmit_size", "theorem"), ("product_resubmit_obs", "theorem"),
+            ("member_prune_item_exact", "theorem"),
+            ("product_example", "example"), ("resubmit_example", "example")]
 PROPS = {"C08"}
 
 
